@@ -67,16 +67,24 @@ def delay_with_mapper_(
 
                     d = SingleAssignmentDisposable()
                     delays.add(d)
+                    released = [False]
+
+                    def release() -> None:
+                        # A delay observable that notifies from inside its
+                        # own subscribe() cannot be unsubscribed yet: only
+                        # its first notification releases the element.
+                        if released[0]:
+                            return
+                        released[0] = True
+                        observer.on_next(x)
+                        delays.remove(d)
+                        done()
 
                     def on_next(_: Any) -> None:
-                        observer.on_next(x)
-                        delays.remove(d)
-                        done()
+                        release()
 
                     def on_completed() -> None:
-                        observer.on_next(x)
-                        delays.remove(d)
-                        done()
+                        release()
 
                     d.disposable = delay.subscribe(
                         on_next, observer.on_error, on_completed, scheduler=scheduler
